@@ -494,6 +494,11 @@ def parallel_block(stmts, env0, np_param, params, what):
     if ctx.args or [k.arg for k in ctx.keywords] != ["max_workers"]:
         raise TranslateError(f"{what}: unexpected arguments of ProcessPoolExecutor")
     rule = max_workers_rule(ctx.keywords[0].value, np_param, what)
+    # `if <flag parameter>: <gather one way> else: <gather another way>` inside the with-block
+    if (len(with_stmt.body) == 1 and isinstance(with_stmt.body[0], ast.If) and with_stmt.body[0].orelse
+            and isinstance(with_stmt.body[0].test, ast.Name) and with_stmt.body[0].test.id in params):
+        br = with_stmt.body[0]
+        return ex, rule, {"flag": br.test.id, True: br.body, False: br.orelse}, env, "split"
     # any sign of completion-order gathering: the model then gathers in completion order (Model/Parallel.v),
     # for which the theorems of C15 do not hold
     for n in ast.walk(with_stmt):
@@ -575,6 +580,8 @@ def refine_droplets_facts(ia: ast.Module):
     ser_call = describe_call(ast.unparse(call.func), call.args, kws, star, slot[0])
     # ---- parallel branch
     ex, rule, target, expr, how = parallel_block(st[0].orelse, {}, np_param, params, what)
+    if how == "split":
+        raise TranslateError(f"{what}: the parallel branch gathers differently depending on `{target['flag']}`")
     if how == "completion":
         return dict(np_param=np_param, serial_n=serial_n, ser_iter=ser_iter, par_iter="", ser_filter=ser_filter,
                     par_filter=False, ser_call=ser_call, par_call="", rule=rule, gather="GatherCompletion")
@@ -674,33 +681,78 @@ def from_storage_facts(em: ast.Module, locate_sig):
     ser_fw, ser_star = forward_table(lb, lstar, None, params, kwarg, what + " (serial)")
     # ---- parallel branch
     ex, rule, target, expr, how = parallel_block(st[0].orelse, {}, np_param, params, what)
-    if how == "completion":
-        # the worker is still a functools.partial(locate_droplets, ...) bound to a local name
-        parts = [v for v in expr.values() if call_name(v) == "functools.partial" and v.args
+
+    def partial_forward(part):
+        if ast.unparse(part.args[0]) != "locate_droplets" or len(part.args) != 1:
+            raise TranslateError(f"{what}: parallel worker is not functools.partial(locate_droplets, <keywords>)")
+        fake = ast.Call(func=part.args[0], args=[ast.Name(id="_frame", ctx=ast.Load())], keywords=part.keywords)
+        pb, pstar = bind_call(fake, lsig, lnpos, lkw, what + ": partial(locate_droplets)")
+        pb.pop(first)
+        return forward_table(pb, pstar, None, params, kwarg, what + " (parallel)")
+
+    def env_partial(env):
+        # the worker is a functools.partial(locate_droplets, ...) bound to a local name
+        parts = [v for v in env.values() if call_name(v) == "functools.partial" and v.args
                  and ast.unparse(v.args[0]) == "locate_droplets" and len(v.args) == 1]
         if len(parts) != 1:
             raise TranslateError(f"{what}: completion-order gathering with an unrecognised worker")
-        fake = ast.Call(func=parts[0].args[0], args=[ast.Name(id="_frame", ctx=ast.Load())], keywords=parts[0].keywords)
-        pb, pstar = bind_call(fake, lsig, lnpos, lkw, what + ": partial(locate_droplets)")
-        pb.pop(first)
-        par_fw, par_star = forward_table(pb, pstar, None, params, kwarg, what + " (parallel)")
-        return dict(params=params, defaults=defaults, kwargs=kwarg or "", np_param=np_param, serial_n=serial_n,
-                    ser_iter=ser_iter, par_iter="", ser_fw=ser_fw, ser_star=ser_star, par_fw=par_fw,
-                    par_star=par_star, rule=rule, gather="GatherCompletion", times_from=times_from)
-    if target != result:
-        raise TranslateError(f"{what}: parallel branch does not assign the result")
-    if not (call_name(expr) == "list" and len(expr.args) == 1 and not expr.keywords):
-        raise TranslateError(f"{what}: parallel branch is not list({ex}.map(...))")
-    part, par_iter = executor_map_call(expr.args[0], ex, params, what)
-    if ast.unparse(part.args[0]) != "locate_droplets" or len(part.args) != 1:
-        raise TranslateError(f"{what}: parallel worker is not functools.partial(locate_droplets, <keywords>)")
-    fake = ast.Call(func=part.args[0], args=[ast.Name(id="_frame", ctx=ast.Load())], keywords=part.keywords)
-    pb, pstar = bind_call(fake, lsig, lnpos, lkw, what + ": partial(locate_droplets)")
-    pb.pop(first)
-    par_fw, par_star = forward_table(pb, pstar, None, params, kwarg, what + " (parallel)")
+        return partial_forward(parts[0])
+
+    def by_index(e):
+        if not (call_name(e) == "list" and len(e.args) == 1 and not e.keywords):
+            raise TranslateError(f"{what}: parallel branch is not list({ex}.map(...))")
+        part, it = executor_map_call(e.args[0], ex, params, what)
+        return ("GatherByIndex",) + partial_forward(part) + (it,)
+
+    def analyse(stmts, env0):
+        """One way of gathering inside the with-block -> (gather kind, forward table, **kwargs?, iterable)."""
+        env1 = dict(env0)
+        for n in stmts:
+            for m in ast.walk(n):
+                if isinstance(m, (ast.Name, ast.Attribute)) and ast.unparse(m).split(".")[-1] == "as_completed":
+                    return ("GatherCompletion",) + env_partial(env1) + ("",)
+        last = None
+        for n in stmts:
+            if isinstance(n, (ast.Import, ast.ImportFrom)):
+                continue
+            if last is not None:
+                raise TranslateError(f"{what}: statement after the result was gathered")
+            for m in ast.walk(n):
+                if isinstance(m, (ast.Name, ast.Attribute)) and ast.unparse(m).split(".")[-1] in ("submit", "wait"):
+                    raise TranslateError(f"{what}: results are gathered through {ast.unparse(m)}, not through executor.map")
+            if isinstance(n, ast.Assign) and len(n.targets) == 1 and isinstance(n.targets[0], ast.Name):
+                if n.targets[0].id == result:
+                    last = inline(n.value, env1)
+                else:
+                    env1[n.targets[0].id] = inline(n.value, env1)
+                continue
+            raise TranslateError(f"{what}: unsupported statement in the with-block: {ast.unparse(n)[:80]}")
+        if last is None:
+            raise TranslateError(f"{what}: the with-block does not assign the result")
+        return by_index(last)
+
+    flag = ""
+    if how == "split":
+        flag = target["flag"]
+        ways = {b: analyse(target[b], expr) for b in (True, False)}
+    elif how == "completion":
+        ways = {b: ("GatherCompletion",) + env_partial(expr) + ("",) for b in (True, False)}
+    else:
+        if target != result:
+            raise TranslateError(f"{what}: parallel branch does not assign the result")
+        ways = {b: by_index(expr) for b in (True, False)}
+    if ways[True][1:3] != ways[False][1:3]:
+        raise TranslateError(f"{what}: the two `{flag}` branches use different workers")
+    iters = {w[3] for w in ways.values() if w[0] == "GatherByIndex"}
+    if len(iters) > 1:
+        raise TranslateError(f"{what}: the two `{flag}` branches iterate over different arguments")
+    # the iterated argument is only established for branches that use executor.map
+    par_iter = iters.pop() if iters and all(w[0] == "GatherByIndex" for w in ways.values()) else \
+        (next(iter(iters)) if iters else "")
     return dict(params=params, defaults=defaults, kwargs=kwarg or "", np_param=np_param, serial_n=serial_n,
-                ser_iter=ser_iter, par_iter=par_iter, ser_fw=ser_fw, ser_star=ser_star, par_fw=par_fw,
-                par_star=par_star, rule=rule, gather="GatherByIndex", times_from=times_from)
+                ser_iter=ser_iter, par_iter=par_iter, ser_fw=ser_fw, ser_star=ser_star, par_fw=ways[True][1],
+                par_star=ways[True][2], rule=rule, gather_flag=flag, gather_true=ways[True][0],
+                gather_false=ways[False][0], times_from=times_from)
 
 
 # ---------------------------------------------------------------------------------------
@@ -788,7 +840,11 @@ def gen_glue() -> str:
     d("fs_np_param", "string", cstr(fs["np_param"]))
     d("fs_serial_when", "nat", str(fs["serial_n"]), "serial branch iff <np_param> == <this>")
     d("fs_max_workers", "mw_rule", fs["rule"])
-    d("fs_gather", "gather_kind", fs["gather"], "list(executor.map(worker, storage))")
+    d("fs_gather_flag", "string", cstr(fs["gather_flag"]),
+      "parameter the way of gathering depends on (empty: it does not depend on any)")
+    d("fs_gather_progress", "gather_kind", fs["gather_true"],
+      "how the parallel branch gathers when `progress` (the flag above) is truthy: list(executor.map(worker, storage))")
+    d("fs_gather_noprogress", "gather_kind", fs["gather_false"], "... and when it is falsy / None")
     out.append("\n(* ---- image_analysis.refine_droplets ---- *)")
     d("rd_np_param", "string", cstr(rd["np_param"]))
     d("rd_serial_when", "nat", str(rd["serial_n"]))
